@@ -59,6 +59,9 @@ type Config struct {
 	NS     []*NSDef `json:"ns"`
 	Strict bool     `json:"strict,omitempty"`
 	Enc    int      `json:"enc"`
+	// PermitsFirst renders `permits` before `related` in every class (member order
+	// is free in OPL)
+	PermitsFirst bool `json:"permits_first,omitempty"`
 }
 
 type SetRef struct {
@@ -317,12 +320,17 @@ func (c *Config) ToOPL() string {
 				perms = append(perms, r)
 			}
 		}
-		if len(plain) > 0 {
-			b.WriteString("  related: {\n")
-			for _, r := range plain {
-				fmt.Fprintf(&b, "    %s: %s\n", r.Name, typeOPL(r.Types))
+		related := func() {
+			if len(plain) > 0 {
+				b.WriteString("  related: {\n")
+				for _, r := range plain {
+					fmt.Fprintf(&b, "    %s: %s\n", r.Name, typeOPL(r.Types))
+				}
+				b.WriteString("  }\n")
 			}
-			b.WriteString("  }\n")
+		}
+		if !c.PermitsFirst {
+			related()
 		}
 		if len(perms) > 0 {
 			b.WriteString("  permits = {\n")
@@ -330,6 +338,9 @@ func (c *Config) ToOPL() string {
 				fmt.Fprintf(&b, "    %s: (ctx: Context): boolean => %s,\n", r.Name, r.Rewrite.opl(full, ExOr, true))
 			}
 			b.WriteString("  }\n")
+		}
+		if c.PermitsFirst {
+			related()
 		}
 		b.WriteString("}\n\n")
 	}
